@@ -30,7 +30,7 @@ func (c04) Technique() string {
 	return "deterministic simulation: seeded Seek/Read histories of 1-3 interleaved reader clients over a simulated block store (benign short reads), checked step by step against an independent (content,pos) reference model; tape shrinking to a minimal history"
 }
 func (c04) Rule() string {
-	return "one evaluation = one seeded history (1-3 readers of one file node, up to 60/200 ops) on one generated file DAG; non-trivial = the DAG has >= 2 blocks and the history contains at least one Seek and one Read that returned data; distinct = distinct abstract signature (op kinds x offset class x outcome, plus seam event sequence)"
+	return "one evaluation = one seeded history (1-3 readers of one file node opened through file.NewUnixFSFile, Reify or the unixfs-preload reifier, optionally a second node over the same root, link system with or without NodeReifier; up to 60/200 ops among Read, Seek from start/current/end, whole-value AsBytes on the node, reader replacement) on one generated file DAG (this builder, boxo balanced/trickle importer, harness-written oddities: uneven/zero-length leaves, missing BlockSizes, single-link wrappers, Raw-typed and metadata-carrying nodes); non-trivial = the DAG has >= 2 blocks and the history contains at least one Seek and one Read that returned data; distinct = distinct abstract signature (op kinds x offset class x outcome, plus seam event sequence)"
 }
 func (c04) Assumptions() []string {
 	return []string{
